@@ -8,6 +8,14 @@ namespace Store
 theorem Key.str_eq_iff {a b : Key} (ha : a.OK) (hb : b.OK) : a.str = b.str ↔ a = b :=
   ⟨Key.str_inj ha hb, fun h => h ▸ rfl⟩
 
+@[simp] theorem Key.ok_height : Key.height.OK := trivial
+@[simp] theorem Key.ok_state : Key.state.OK := trivial
+@[simp] theorem Key.ok_header (h : Nat) : (Key.header h).OK := trivial
+@[simp] theorem Key.ok_data (h : Nat) : (Key.data h).OK := trivial
+@[simp] theorem Key.ok_signature (h : Nat) : (Key.signature h).OK := trivial
+@[simp] theorem Key.ok_index (x : Bytes) : (Key.index x).OK := trivial
+@[simp] theorem Key.ok_metadata (k : String) : (Key.metadata k).OK ↔ metaKeyOK k = true := Iff.rfl
+
 theorem heightKey_eq : heightKey = Key.height.str := rfl
 theorem stateKey_eq : stateKey = Key.state.str := rfl
 theorem headerKey_eq (h : Nat) : headerKey h = (Key.header h).str := rfl
@@ -137,17 +145,425 @@ theorem get_setMetadata (kv : KV) (k : String) (v : Bytes) (s : String) :
     (step kv (.setMetadata k v)).get s = if metaKey k = s then some v else kv.get s := by
   simp [step, writes, setMetadataWS, applyW, KV.get_put]
 
-theorem height_of_inv {kv : KV} (hi : Inv kv) : height kv = .ok (abs kv).height := by
-  unfold abs height
+def heightOf (kv : KV) : Nat :=
+  match kv.get heightKey with
+  | none => 0
+  | some b => (decodeHeight b).getD 0
+
+theorem abs_height (kv : KV) : (abs kv).height = heightOf kv := by
+  unfold abs height heightOf
+  cases kv.get heightKey with
+  | none => rfl
+  | some b => cases h : decodeHeight b <;> simp [h]
+
+theorem height_of_inv {kv : KV} (hi : Inv kv) : height kv = .ok (heightOf kv) := by
+  unfold height heightOf
   cases hg : kv.get heightKey with
   | none => simp
   | some b => simp [decodeHeight, hi.height_ok b hg]
 
 theorem get_setHeight {kv : KV} (hi : Inv kv) (h : Nat) (s : String) :
     (step kv (.setHeight h)).get s =
-      if h ≤ (abs kv).height then kv.get s
+      if h ≤ heightOf kv then kv.get s
       else if heightKey = s then some (encodeHeight h) else kv.get s := by
   simp only [step, writes, setHeightW, setHeight, height_of_inv hi]
-  by_cases hle : h ≤ (abs kv).height <;> simp [hle, setHeightWS, applyW, KV.get_put]
+  by_cases hle : h ≤ heightOf kv <;> simp [hle, setHeightWS, applyW, KV.get_put]
+
+theorem Abs.ext' {a b : Abs} (h1 : a.height = b.height) (h2 : ∀ h, a.blocks h = b.blocks h)
+    (h3 : ∀ x, a.index x = b.index x) (h4 : a.state = b.state)
+    (h5 : ∀ k, a.metadata k = b.metadata k) : a = b := by
+  cases a; cases b
+  simp only [Abs.mk.injEq]
+  exact ⟨h1, funext h2, funext h3, h4, funext h5⟩
+
+/-- **refinement, writes**: every operation commutes with the abstraction map -/
+theorem abs_step {kv : KV} (hi : Inv kv) {op : Op} (hop : op.OK) :
+    abs (step kv op) = (abs kv).step op := by
+  cases op with
+  | setHeight h =>
+    have hh : h < 2 ^ 64 := hop
+    apply Abs.ext'
+    · simp only [Abs.step, abs_height]
+      by_cases hle : h ≤ heightOf kv
+      · simp only [hle, if_true]
+        unfold heightOf
+        simp only [get_setHeight hi, hle, if_true]
+      · simp only [hle, if_false]
+        unfold heightOf
+        simp [get_setHeight hi, hle, decode_encodeHeight hh]
+    · intro h'
+      simp only [abs, Abs.step, blockAt, get_setHeight hi]
+      by_cases hle : h ≤ heightOf kv <;>
+        simp [hle, heightKey_eq, headerKey_eq, dataKey_eq, signatureKey_eq, Key.str_eq_iff]
+    · intro x
+      simp only [abs, Abs.step, get_setHeight hi]
+      by_cases hle : h ≤ heightOf kv <;>
+        simp [hle, heightKey_eq, indexKey_eq, Key.str_eq_iff]
+    · simp only [abs, Abs.step, get_setHeight hi]
+      by_cases hle : h ≤ heightOf kv <;>
+        simp [hle, heightKey_eq, stateKey_eq, Key.str_eq_iff]
+    · intro k
+      simp only [abs, Abs.step, get_setHeight hi]
+      by_cases hk : metaKeyOK k = true <;> by_cases hle : h ≤ heightOf kv <;>
+        simp [hk, hle, heightKey_eq, metaKey_eq, Key.str_eq_iff]
+  | save h x b =>
+    have hh : h < 2 ^ 64 := hop
+    apply Abs.ext'
+    · simp only [Abs.step, abs_height, heightOf, get_save]
+      simp [heightKey_eq, headerKey_eq, dataKey_eq, signatureKey_eq, indexKey_eq, Key.str_eq_iff]
+    · intro h'
+      simp only [abs, Abs.step, blockAt, get_save]
+      by_cases e : h' = h
+      · subst e
+        simp [headerKey_eq, dataKey_eq, signatureKey_eq, indexKey_eq, Key.str_eq_iff]
+      · have e' : ¬ h = h' := fun c => e c.symm
+        simp [e, e', headerKey_eq, dataKey_eq, signatureKey_eq, indexKey_eq, Key.str_eq_iff]
+    · intro x'
+      simp only [abs, Abs.step, get_save]
+      by_cases e : x' = x
+      · subst e; simp [decode_encodeHeight hh]
+      · have e' : ¬ x = x' := fun c => e c.symm
+        simp [e, e', headerKey_eq, dataKey_eq, signatureKey_eq, indexKey_eq, Key.str_eq_iff]
+    · simp only [abs, Abs.step, get_save]
+      simp [stateKey_eq, headerKey_eq, dataKey_eq, signatureKey_eq, indexKey_eq, Key.str_eq_iff]
+    · intro k
+      simp only [abs, Abs.step, get_save]
+      by_cases hk : metaKeyOK k = true <;>
+        simp [hk, metaKey_eq, headerKey_eq, dataKey_eq, signatureKey_eq, indexKey_eq, Key.str_eq_iff]
+  | updateState blob =>
+    apply Abs.ext'
+    · simp only [Abs.step, abs_height, heightOf, get_updateState]
+      simp [heightKey_eq, stateKey_eq, Key.str_eq_iff]
+    · intro h'
+      simp only [abs, Abs.step, blockAt, get_updateState]
+      simp [stateKey_eq, headerKey_eq, dataKey_eq, signatureKey_eq, Key.str_eq_iff]
+    · intro x
+      simp only [abs, Abs.step, get_updateState]
+      simp [stateKey_eq, indexKey_eq, Key.str_eq_iff]
+    · simp [abs, Abs.step, get_updateState]
+    · intro k
+      simp only [abs, Abs.step, get_updateState]
+      by_cases hk : metaKeyOK k = true <;> simp [hk, stateKey_eq, metaKey_eq, Key.str_eq_iff]
+  | setMetadata k v =>
+    have hk : metaKeyOK k = true := hop
+    apply Abs.ext'
+    · simp only [Abs.step, abs_height, heightOf, get_setMetadata]
+      simp [hk, heightKey_eq, metaKey_eq, Key.str_eq_iff]
+    · intro h'
+      simp only [abs, Abs.step, blockAt, get_setMetadata]
+      simp [hk, metaKey_eq, headerKey_eq, dataKey_eq, signatureKey_eq, Key.str_eq_iff]
+    · intro x
+      simp only [abs, Abs.step, get_setMetadata]
+      simp [hk, metaKey_eq, indexKey_eq, Key.str_eq_iff]
+    · simp only [abs, Abs.step, get_setMetadata]
+      simp [hk, metaKey_eq, stateKey_eq, Key.str_eq_iff]
+    · intro k'
+      simp only [abs, Abs.step, get_setMetadata]
+      by_cases hk' : metaKeyOK k' = true
+      · by_cases e : k' = k
+        · subst e; simp [hk]
+        · have e' : ¬ k = k' := fun c => e c.symm
+          simp [hk, hk', e, e', metaKey_eq, Key.str_eq_iff]
+      · have e : ¬ k' = k := fun c => hk' (c ▸ hk)
+        simp [hk', e]
+
+/-- the invariant is kept by every operation -/
+theorem inv_step {kv : KV} (hi : Inv kv) {op : Op} (hop : op.OK) : Inv (step kv op) := by
+  cases op with
+  | setHeight h =>
+    by_cases hle : h ≤ heightOf kv
+    · have : step kv (.setHeight h) = kv := by
+        simp [step, writes, setHeightW, setHeight, height_of_inv hi, hle]
+      rw [this]; exact hi
+    · refine ⟨?_, ?_, ?_⟩
+      · intro b
+        simp only [get_setHeight hi, hle, if_false, if_true]
+        intro hb
+        rw [← Option.some.inj hb]; exact encodeHeight_length h
+      · intro x b
+        simp only [get_setHeight hi, hle, if_false]
+        simp only [heightKey_eq, indexKey_eq, Key.str_eq_iff, Key.ok_height, Key.ok_index, reduceCtorEq, if_false]
+        exact hi.index_ok x b
+      · intro h'
+        simp only [get_setHeight hi, hle, if_false]
+        simp only [heightKey_eq, headerKey_eq, dataKey_eq, signatureKey_eq, Key.str_eq_iff, Key.ok_height,
+          Key.ok_header, Key.ok_data, Key.ok_signature, reduceCtorEq, if_false]
+        exact hi.coherent h'
+  | save h x b =>
+    refine ⟨?_, ?_, ?_⟩
+    · intro v
+      simp only [get_save]
+      simp [heightKey_eq, headerKey_eq, dataKey_eq, signatureKey_eq, indexKey_eq, Key.str_eq_iff]
+      exact hi.height_ok v
+    · intro x' v
+      simp only [get_save]
+      by_cases e : x = x'
+      · subst e; simp
+        intro hv; rw [← hv]; exact encodeHeight_length h
+      · simp [e, headerKey_eq, dataKey_eq, signatureKey_eq, indexKey_eq, Key.str_eq_iff]
+        exact hi.index_ok x' v
+    · intro h'
+      simp only [get_save]
+      by_cases e : h = h'
+      · subst e
+        simp [headerKey_eq, dataKey_eq, signatureKey_eq, indexKey_eq, Key.str_eq_iff]
+      · simp [e, headerKey_eq, dataKey_eq, signatureKey_eq, indexKey_eq, Key.str_eq_iff]
+        exact hi.coherent h'
+  | updateState blob =>
+    refine ⟨?_, ?_, ?_⟩
+    · intro v
+      simp [get_updateState, heightKey_eq, stateKey_eq, Key.str_eq_iff]
+      exact hi.height_ok v
+    · intro x v
+      simp [get_updateState, indexKey_eq, stateKey_eq, Key.str_eq_iff]
+      exact hi.index_ok x v
+    · intro h'
+      simp [get_updateState, headerKey_eq, dataKey_eq, signatureKey_eq, stateKey_eq, Key.str_eq_iff]
+      exact hi.coherent h'
+  | setMetadata k v =>
+    have hk : metaKeyOK k = true := hop
+    refine ⟨?_, ?_, ?_⟩
+    · intro v
+      simp [get_setMetadata, heightKey_eq, metaKey_eq, Key.str_eq_iff, hk]
+      exact hi.height_ok v
+    · intro x v
+      simp [get_setMetadata, indexKey_eq, metaKey_eq, Key.str_eq_iff, hk]
+      exact hi.index_ok x v
+    · intro h'
+      simp [get_setMetadata, headerKey_eq, dataKey_eq, signatureKey_eq, metaKey_eq, Key.str_eq_iff, hk]
+      exact hi.coherent h'
+
+/-! ### reads -/
+
+deriving instance DecidableEq for Except
+
+def Abs.getBlock (a : Abs) (h : Nat) : Except Err (Bytes × Bytes) :=
+  match a.blocks h with
+  | some b => .ok (b.header, b.data)
+  | none => .error .notFound
+
+def Abs.getSignature (a : Abs) (h : Nat) : Except Err Bytes :=
+  match a.blocks h with
+  | some b => .ok b.signature
+  | none => .error .notFound
+
+def Abs.getHeightByHash (a : Abs) (x : Bytes) : Except Err Nat :=
+  match a.index x with
+  | some h => .ok h
+  | none => .error .notFound
+
+def Abs.getBlockByHash (a : Abs) (x : Bytes) : Except Err (Bytes × Bytes) :=
+  match a.index x with
+  | some h => a.getBlock h
+  | none => .error .notFound
+
+def Abs.getSignatureByHash (a : Abs) (x : Bytes) : Except Err Bytes :=
+  match a.index x with
+  | some h => a.getSignature h
+  | none => .error .notFound
+
+def Abs.getState (a : Abs) : Except Err Bytes :=
+  match a.state with
+  | some s => .ok s
+  | none => .error .notFound
+
+def Abs.getMetadata (a : Abs) (k : String) : Except Err Bytes :=
+  match a.metadata k with
+  | some v => .ok v
+  | none => .error .notFound
+
+/-- `UnmarshalBinary` of a stored block -/
+def decodeBlock (keyOk : Bytes → Bool) (hb db : Bytes) : Except Err (Wire.SignedHeader × Wire.Data) :=
+  match Wire.SignedHeader.decode keyOk hb with
+  | none => .error .corrupt
+  | some sh =>
+    match Wire.Data.decode db with
+    | none => .error .corrupt
+    | some d => .ok (sh, d)
+
+def Abs.getBlockData (keyOk : Bytes → Bool) (a : Abs) (h : Nat) : Except Err (Wire.SignedHeader × Wire.Data) :=
+  match a.blocks h with
+  | some b => decodeBlock keyOk b.header b.data
+  | none => .error .notFound
+
+def Abs.getBlockDataByHash (keyOk : Bytes → Bool) (a : Abs) (x : Bytes) :
+    Except Err (Wire.SignedHeader × Wire.Data) :=
+  match a.index x with
+  | some h => a.getBlockData keyOk h
+  | none => .error .notFound
+
+theorem read_height {kv : KV} (hi : Inv kv) : height kv = .ok (abs kv).height := by
+  rw [abs_height]; exact height_of_inv hi
+
+theorem read_block {kv : KV} (hi : Inv kv) (h : Nat) : getBlockBlobs kv h = (abs kv).getBlock h := by
+  have hc := hi.coherent h
+  simp only [getBlockBlobs, getHeaderBlob, getDataBlob, getOr, Abs.getBlock, abs, blockAt]
+  cases h1 : kv.get (headerKey h) <;> cases h2 : kv.get (dataKey h) <;>
+    cases h3 : kv.get (signatureKey h) <;> simp_all
+
+theorem read_signature {kv : KV} (hi : Inv kv) (h : Nat) : getSignature kv h = (abs kv).getSignature h := by
+  have hc := hi.coherent h
+  simp only [getSignature, getOr, Abs.getSignature, abs, blockAt]
+  cases h1 : kv.get (headerKey h) <;> cases h2 : kv.get (dataKey h) <;>
+    cases h3 : kv.get (signatureKey h) <;> simp_all
+
+theorem read_heightByHash {kv : KV} (hi : Inv kv) (x : Bytes) :
+    getHeightByHash kv x = (abs kv).getHeightByHash x := by
+  simp only [getHeightByHash, Abs.getHeightByHash, abs]
+  cases h1 : kv.get (indexKey x) with
+  | none => simp
+  | some b => simp [decodeHeight, hi.index_ok x b h1]
+
+theorem read_blockByHash {kv : KV} (hi : Inv kv) (x : Bytes) :
+    getBlockBlobsByHash kv x = (abs kv).getBlockByHash x := by
+  simp only [getBlockBlobsByHash, read_heightByHash hi, Abs.getHeightByHash, Abs.getBlockByHash]
+  cases (abs kv).index x <;> simp [read_block hi]
+
+theorem read_signatureByHash {kv : KV} (hi : Inv kv) (x : Bytes) :
+    getSignatureByHash kv x = (abs kv).getSignatureByHash x := by
+  simp only [getSignatureByHash, read_heightByHash hi, Abs.getHeightByHash, Abs.getSignatureByHash]
+  cases (abs kv).index x <;> simp [read_signature hi]
+
+theorem read_state (kv : KV) : getStateBlob kv = (abs kv).getState := by
+  simp only [getStateBlob, getOr, Abs.getState, abs]
+  cases kv.get stateKey <;> rfl
+
+theorem read_metadata (kv : KV) {k : String} (hk : metaKeyOK k = true) :
+    getMetadata kv k = (abs kv).getMetadata k := by
+  simp only [getMetadata, getOr, Abs.getMetadata, abs, hk, if_true]
+  cases kv.get (metaKey k) <;> rfl
+
+theorem read_blockData {kv : KV} (hi : Inv kv) (keyOk : Bytes → Bool) (h : Nat) :
+    getBlockData keyOk kv h = (abs kv).getBlockData keyOk h := by
+  have hc := hi.coherent h
+  simp only [getBlockData, getHeader, getHeaderBlob, getDataBlob, getOr, Abs.getBlockData, abs, blockAt,
+    decodeBlock]
+  cases h1 : kv.get (headerKey h) <;> cases h2 : kv.get (dataKey h) <;>
+    cases h3 : kv.get (signatureKey h) <;> simp_all
+  cases Wire.SignedHeader.decode keyOk _ with
+  | none => rfl
+  | some sh => cases Wire.Data.decode _ <;> rfl
+
+theorem read_blockDataByHash {kv : KV} (hi : Inv kv) (keyOk : Bytes → Bool) (x : Bytes) :
+    getBlockByHash keyOk kv x = (abs kv).getBlockDataByHash keyOk x := by
+  simp only [getBlockByHash, read_heightByHash hi, Abs.getHeightByHash, Abs.getBlockDataByHash]
+  cases (abs kv).index x <;> simp [read_blockData hi]
+
+/-! ### histories -/
+
+theorem run_cons (kv : KV) (op : Op) (ops : List Op) : run kv (op :: ops) = run (step kv op) ops := rfl
+theorem Abs.run_cons (a : Abs) (op : Op) (ops : List Op) : a.run (op :: ops) = (a.step op).run ops := rfl
+
+theorem refinement_from {kv : KV} (hi : Inv kv) (ops : List Op) (hops : ∀ op ∈ ops, op.OK) :
+    Inv (run kv ops) ∧ abs (run kv ops) = (abs kv).run ops := by
+  induction ops generalizing kv with
+  | nil => exact ⟨hi, rfl⟩
+  | cons op ops ih =>
+    have hop := hops op (List.mem_cons_self ..)
+    have := ih (inv_step hi hop) (fun o ho => hops o (List.mem_cons_of_mem _ ho))
+    rw [run_cons, Abs.run_cons, ← abs_step hi hop]
+    exact this
+
+theorem height_mono_step {kv : KV} (hi : Inv kv) {op : Op} (hop : op.OK) :
+    (abs kv).height ≤ (abs (step kv op)).height := by
+  rw [abs_step hi hop]
+  cases op <;> simp only [Abs.step] <;> try exact Nat.le_refl _
+  split <;> omega
+
+theorem height_mono_run {kv : KV} (hi : Inv kv) (ops : List Op) (hops : ∀ op ∈ ops, op.OK) :
+    (abs kv).height ≤ (abs (run kv ops)).height := by
+  induction ops generalizing kv with
+  | nil => exact Nat.le_refl _
+  | cons op ops ih =>
+    have hop := hops op (List.mem_cons_self ..)
+    exact Nat.le_trans (height_mono_step hi hop)
+      (ih (inv_step hi hop) (fun o ho => hops o (List.mem_cons_of_mem _ ho)))
+
+/-! ### crashes -/
+
+theorem writes_length (kv : KV) (op : Op) : (writes kv op).length ≤ 1 := by
+  cases op with
+  | setHeight h =>
+    simp only [writes, setHeightW, setHeight]
+    cases height kv with
+    | error e => simp
+    | ok cur => by_cases hle : h ≤ cur <;> simp [hle]
+  | _ => simp [writes]
+
+/-- a crash inside an operation: nothing of it or all of it -/
+theorem crash_in_op (n : Nat) (kv : KV) (op : Op) :
+    applyPrefix n (writes kv op) kv = kv ∨ applyPrefix n (writes kv op) kv = step kv op := by
+  have hl := writes_length kv op
+  unfold step
+  match hw : writes kv op with
+  | [] => left; simp
+  | [ws] => exact applyPrefix_single n ws kv
+  | _ :: _ :: _ => rw [hw] at hl; simp at hl
+
+theorem log_cons (kv : KV) (op : Op) (ops : List Op) :
+    log kv (op :: ops) = writes kv op ++ log (step kv op) ops := rfl
+
+/-- a crash anywhere in a history leaves exactly the store some prefix of the history produced -/
+theorem crash_is_prefix (ops : List Op) (kv : KV) (n : Nat) :
+    ∃ m, m ≤ ops.length ∧ applyPrefix n (log kv ops) kv = run kv (ops.take m) := by
+  induction ops generalizing kv n with
+  | nil => exact ⟨0, Nat.le_refl _, by simp [log, run]⟩
+  | cons op ops ih =>
+    rw [log_cons, applyPrefix_append]
+    split
+    · rcases crash_in_op n kv op with h | h
+      · exact ⟨0, Nat.zero_le _, by rw [h]; rfl⟩
+      · exact ⟨1, by simp, by rw [h]; rfl⟩
+    · obtain ⟨m, hm, he⟩ := ih (step kv op) (n - (writes kv op).length)
+      refine ⟨m + 1, by simp; omega, ?_⟩
+      have : applyAll kv (writes kv op) = step kv op := rfl
+      rw [this, he]; rfl
+
+/-! ### reading by hash when no height is saved again under another header -/
+
+/-- ghost state: hash and block of the latest save at each height -/
+def savedStep (g : Nat → Option (Bytes × Block)) : Op → Nat → Option (Bytes × Block)
+  | .save h x b => fun h' => if h' = h then some (x, b) else g h'
+  | _ => g
+
+def lastSaved (ops : List Op) : Nat → Option (Bytes × Block) := ops.foldl savedStep (fun _ => none)
+
+/-- no height is saved again with a header of another hash -/
+def NoResave (g : Nat → Option (Bytes × Block)) : List Op → Prop
+  | [] => True
+  | op :: rest =>
+    (match op with
+     | .save h x _ => ∀ y b, g h = some (y, b) → y = x
+     | _ => True) ∧ NoResave (savedStep g op) rest
+
+theorem index_sound_run (ops : List Op) (a : Abs) (g : Nat → Option (Bytes × Block))
+    (hag : ∀ x h, a.index x = some h → ∃ b, g h = some (x, b) ∧ a.blocks h = some b)
+    (hn : NoResave g ops) :
+    ∀ x h, (a.run ops).index x = some h →
+      ∃ b, (ops.foldl savedStep g) h = some (x, b) ∧ (a.run ops).blocks h = some b := by
+  induction ops generalizing a g with
+  | nil => exact hag
+  | cons op ops ih =>
+    rw [Abs.run_cons, List.foldl_cons]
+    apply ih _ _ _ hn.2
+    intro x h
+    cases op with
+    | save h0 x0 b0 =>
+      simp only [Abs.step, savedStep]
+      by_cases ex : x = x0
+      · subst ex
+        simp only [if_true]
+        intro hh; cases hh
+        exact ⟨b0, by simp⟩
+      · simp only [ex, if_false]
+        intro hix
+        obtain ⟨b, hg, hb⟩ := hag x h hix
+        by_cases eh : h = h0
+        · subst eh
+          exact absurd (hn.1 x b hg) ex
+        · exact ⟨b, by simp [eh, hg], by simp [eh, hb]⟩
+    | setHeight _ => exact hag x h
+    | updateState _ => exact hag x h
+    | setMetadata _ _ => exact hag x h
 
 end Store
